@@ -19,11 +19,11 @@ import time
 
 ROOT = os.path.dirname(os.path.dirname(os.path.abspath(__file__)))
 REPO = os.environ.get("VERIF_REPO", "/repo")
-BUILD = os.path.join(ROOT, ".build")
-RUNS = os.path.join(ROOT, "runs")
+BUILD = os.environ.get("VERIF_BUILD", os.path.join(ROOT, ".build"))     # VERIF_REPO / VERIF_BUILD / VERIF_RUNS: run the checks against a scratch
+RUNS = os.environ.get("VERIF_RUNS", os.path.join(ROOT, "runs"))          # worktree without touching /repo (used when trying seeded changes)
 SPEC = os.path.join(ROOT, "spec")
 HARNESS = os.path.join(ROOT, "harness")
-EVID = os.path.join(ROOT, "evidence")
+EVID = os.environ.get("VERIF_EVIDENCE", os.path.join(ROOT, "evidence"))
 TLA_CP = "/opt/veriftools/tla/tla2tools.jar:/opt/veriftools/tla/CommunityModules-deps.jar"
 NCPU = os.cpu_count() or 4
 
